@@ -19,6 +19,7 @@ package main
 import (
 	"encoding/binary"
 	"fmt"
+	"math"
 	"math/rand"
 	"os"
 	"sort"
@@ -108,6 +109,12 @@ func main() {
 	viol := facts.BadReferences()
 	for _, v := range viol {
 		st.Fail("static:"+v.Func+"->"+v.Bad, "consensus code reaches a process-global or clock-seeded random source: "+v.Func+" references "+v.Bad+" at "+v.At, v)
+	}
+	for _, fs := range facts.FloatSums {
+		st.Count("floatsum:"+fs.Func+"@"+fs.At, true, "static:float-map-sum")
+		if !fs.Integral {
+			st.Fail("float-map-sum:"+fs.Func, "consensus code accumulates a float64 sum with non-integer addends while ranging over a map: the result depends on Go's random map iteration order: "+fs.Func+" at "+fs.At, fs)
+		}
 	}
 	st.Extra["graph_nodes"] = len(facts.Names)
 	st.Extra["graph_sources"] = len(facts.Sources)
@@ -436,6 +443,179 @@ func main() {
 	v2Case(501, 2, 10, 4, 0, "fewer keys than seats")
 	for i := 0; i < run.N(25, 1500); i++ {
 		v2Case(uint32(600+i), rng.U64(), rng.Range(0, 90), rng.Range(0, 12), 0, "")
+	}
+
+	// ---- DPoS v2 vote rights and ranking: producers holding several stakes with different lock
+	// times (fractional weights), pairs of producers with identical stake sets (must tie and rank by
+	// node key); every evaluation walks the two nested maps in a fresh random order, and the state is
+	// rebuilt with permuted insertion order.
+	type stake struct {
+		addr, ref uint32
+		votes     int64
+		lock      uint32 // LockTime - BlockHeight
+	}
+	type v2prod struct {
+		key    uint32
+		stakes []stake
+	}
+	summand := func(sk stake) int64 {
+		w := math.Log10(float64(sk.lock) / 7200 * 10)
+		return int64(common.Fixed64(float64(common.Fixed64(sk.votes)) * w))
+	}
+	build := func(ps []v2prod, order []int) *fixture {
+		g := newFixture()
+		for _, i := range order {
+			p := ps[i]
+			m := map[common.Uint168]map[common.Uint256]payload.DetailedVoteInfo{}
+			idx := rng.Intn(len(p.stakes) + 1)
+			for k := range p.stakes {
+				sk := p.stakes[(k+idx)%len(p.stakes)]
+				var a common.Uint168
+				copy(a[:], key4(sk.addr))
+				var r common.Uint256
+				copy(r[:], key4(sk.ref))
+				if m[a] == nil {
+					m[a] = map[common.Uint256]payload.DetailedVoteInfo{}
+				}
+				m[a][r] = payload.DetailedVoteInfo{BlockHeight: 1000, Info: []payload.VotesWithLockTime{{Votes: common.Fixed64(sk.votes), LockTime: 1000 + sk.lock}}}
+			}
+			g.arb.AddProducerVerifC24(append([]byte{3}, key4(p.key^0x77777777)...), key4(p.key), 1, m)
+		}
+		return g
+	}
+	rightsCase := func(ps []v2prod, corpus string) {
+		effective := int64(f.params.DPoSV2EffectiveVotes)
+		exact := map[uint32]int64{}
+		for _, p := range ps {
+			var t int64
+			for _, sk := range p.stakes {
+				t += summand(sk)
+			}
+			exact[p.key] = t
+		}
+		describe := func(p v2prod) map[string]interface{} {
+			var sks []string
+			for _, sk := range p.stakes {
+				sks = append(sks, fmt.Sprintf("{stake %d ref %d votes %d lock %d}", sk.addr, sk.ref, sk.votes, sk.lock))
+			}
+			return map[string]interface{}{"node_key": p.key, "stakes": sks, "exact_integer_rights": exact[p.key]}
+		}
+		var firstOrder []uint32
+		for rep := 0; rep < 4; rep++ {
+			order := make([]int, len(ps))
+			for i := range order {
+				order[i] = i
+			}
+			if rep > 0 {
+				for i := len(order) - 1; i > 0; i-- {
+					j := rng.Intn(i + 1)
+					order[i], order[j] = order[j], order[i]
+				}
+			}
+			g := build(ps, order)
+			// (a) the rights of one producer: same bits on every evaluation, and the exact integer sum
+			byKey := map[uint32]*state.Producer{}
+			for _, p := range g.arb.State.ActivityProducers {
+				byKey[binary.BigEndian.Uint32(p.NodePublicKey())] = p
+			}
+			for _, p := range ps {
+				pr := byKey[p.key]
+				v0 := pr.GetTotalDPoSV2VoteRights()
+				if rep == 0 {
+					st.Count(fmt.Sprintf("rights:%d:%d", p.key, exact[p.key]), len(p.stakes) >= 3, "GetTotalDPoSV2VoteRights")
+				}
+				bad := false
+				for e := 0; e < 25 && !bad; e++ {
+					if v := pr.GetTotalDPoSV2VoteRights(); math.Float64bits(v) != math.Float64bits(v0) {
+						in := describe(p)
+						in["value_a"], in["value_b"] = fmt.Sprintf("%.6f", v0), fmt.Sprintf("%.6f", v)
+						st.Fail("GetTotalDPoSV2VoteRights:map-order", "the DPoS v2 vote rights of one producer change from one evaluation to the next with no change of chain data (float sum in map iteration order)", in)
+						bad = true
+					}
+				}
+				if !bad && exact[p.key] < 1<<53 && v0 != float64(exact[p.key]) {
+					in := describe(p)
+					in["value"] = fmt.Sprintf("%.6f", v0)
+					st.Fail("GetTotalDPoSV2VoteRights:not-integer-sum", "DPoS v2 vote rights are not the exact sum of the per-vote whole-sela rights (addends not truncated: the float sum is order dependent)", in)
+				}
+			}
+			// (b) ranking: identical on every evaluation and every rebuild
+			for e := 0; e < 12; e++ {
+				var o []uint32
+				for _, p := range g.arb.GetSortedProducersDposV2Verif() {
+					o = append(o, binary.BigEndian.Uint32(p.NodePublicKey()))
+				}
+				if firstOrder == nil {
+					firstOrder = o
+					if o == nil {
+						firstOrder = []uint32{}
+					}
+				} else if fmt.Sprint(o) != fmt.Sprint(firstOrder) {
+					var all []interface{}
+					for _, p := range ps {
+						all = append(all, describe(p))
+					}
+					st.Fail("getSortedProducersDposV2:map-order", "the DPoS v2 producer ranking differs between evaluations / rebuilds of the same chain data", map[string]interface{}{"order_a": firstOrder, "order_b": o, "producers": all})
+					e = 99
+				}
+			}
+		}
+		// correspondence: rank by exact integer rights (descending), node key (ascending), above the threshold
+		var in, og []string
+		for _, p := range ps {
+			if exact[p.key] > effective {
+				in = append(in, fmt.Sprintf("(%d,%d)", exact[p.key], p.key))
+			}
+		}
+		for _, k := range firstOrder {
+			og = append(og, fmt.Sprintf("%d", k))
+		}
+		k := next()
+		sh.Add(fmt.Sprintf("CSort %d %s %s", k, lib.CoqList(in), lib.CoqList(og)))
+		st.LogCase(run.Out, k, map[string]interface{}{"op": "getSortedProducersDposV2", "corpus": corpus, "in": in, "out": firstOrder})
+		st.Count("sortv2:"+strings.Join(in, ""), len(firstOrder) > 1, "getSortedProducersDposV2")
+	}
+	genProd := func(key uint32, nst int) v2prod {
+		p := v2prod{key: key}
+		for i := 0; i < nst; i++ {
+			p.stakes = append(p.stakes, stake{addr: uint32(1 + rng.Intn(3)), ref: uint32(rng.U64()) | 1, votes: (1 + int64(rng.Intn(900000))) * 100000000 / int64(1+rng.Intn(7)),
+				lock: uint32(7200 + rng.Intn(7200*999))})
+		}
+		return p
+	}
+	twin := func(p v2prod, key uint32) v2prod {
+		q := v2prod{key: key}
+		q.stakes = append(q.stakes, p.stakes...)
+		return q
+	}
+	{
+		a := v2prod{key: 900, stakes: []stake{{1, 11, 123456789012, 7200 * 3}, {1, 12, 987654321098, 7200*30 + 17}, {2, 13, 555555555555, 7200*100 + 3333}, {3, 14, 4200000000000, 7200*365 + 1}, {2, 15, 31415926535, 9999}}}
+		rightsCase([]v2prod{a, twin(a, 100), twin(a, 500), genProd(7, 3)}, "three producers with one five-stake set: tie, ranked by node key")
+	}
+	for i := 0; i < run.N(25, 1500); i++ {
+		var ps []v2prod
+		n := 2 + rng.Intn(10)
+		for j := 0; j < n; j++ {
+			p := genProd(uint32(1000+rng.Intn(100000)), 1+rng.Intn(7))
+			dup := false
+			for _, q := range ps {
+				dup = dup || q.key == p.key
+			}
+			if dup {
+				continue
+			}
+			ps = append(ps, p)
+			if rng.Chance(40) {
+				k2 := uint32(rng.Intn(1000))
+				for _, q := range ps {
+					dup = dup || q.key == k2
+				}
+				if !dup {
+					ps = append(ps, twin(p, k2))
+				}
+			}
+		}
+		rightsCase(ps, "")
 	}
 
 	atomic.StoreInt32(&hammerStop, 1)
